@@ -102,7 +102,7 @@ type variant struct {
 func run(c *vf.Ctx) {
 	pls, als := ptLens(c.Thorough), adLens()
 	c.Rule(fmt.Sprintf("full grid path{asm(AVX2),generic} x {New,NewX} x %d plaintext lengths (every 0..%d, every k*64-1/k*64/k*64+1 to 8192, k*16-1/k*16/k*16+1 to 2048, 65535..65537, 70001) x "+
-		"%d AD lengths (every 0..33 incl. 13; 47..49, 63..65, 255..257, 600) x dst{nil,prefix+spare,prefix+capacity-1,prefix+exact; quick tier: only the middle two above 1024 bytes} x value classes (key,nonce,plaintext,AD drawn diagonally from the alphabet); "+
+		"%d AD lengths (every 0..33 incl. 13; 47..49, 63..65, 255..257, 600) x dst{nil,prefix+spare,prefix+capacity-1,prefix+exact; only the middle two above 1024 bytes (thorough: above 2048)} x value classes (key,nonce,plaintext,AD drawn diagonally from the alphabet); "+
 		"each point: Seal == dst||RFC-model ciphertext||tag, Open(that) == dst||plaintext, inputs unmodified; non-trivial = distinct (path,variant,ptLen,adLen) with ptLen>=1; "+
 		"oracle = verif/ref/aeadref (plain block function + math/big Poly1305, RFC KATs)", len(pls), map[bool]int{false: 1024, true: 8192}[c.Thorough], len(als)))
 	c.Assume("math/big arithmetic is correct; values outside the alphabet are not enumerated (Poly1305 carry corner cases inside the AEAD assembly cannot be steered through the ChaCha20-derived one-time key)")
@@ -112,12 +112,16 @@ func run(c *vf.Ctx) {
 		{"New", chacha20poly1305.NonceSize, chacha20poly1305.New},
 		{"NewX", chacha20poly1305.NonceSizeX, chacha20poly1305.NewX},
 	}
-	nClasses := 4 + c.V()
-	keys := c.ValueClasses("c01-key", 32, c.V())
+	nSeeded := c.V()
+	if nSeeded > 4 {
+		nSeeded = 4 // thorough deepens the length grid; 4 fixed + 4 seeded value classes
+	}
+	nClasses := 4 + nSeeded
+	keys := c.ValueClasses("c01-key", 32, nSeeded)
 	maxPt, maxAd := pls[len(pls)-1], als[len(als)-1]
-	ptC := c.ValueClasses("c01-pt", maxPt, c.V())
-	adC := c.ValueClasses("c01-ad", maxAd, c.V())
-	nonces := map[int][][]byte{12: c.ValueClasses("c01-nonce", 12, c.V()), 24: c.ValueClasses("c01-nonce", 24, c.V())}
+	ptC := c.ValueClasses("c01-pt", maxPt, nSeeded)
+	adC := c.ValueClasses("c01-ad", maxAd, nSeeded)
+	nonces := map[int][][]byte{12: c.ValueClasses("c01-nonce", 12, nSeeded), 24: c.ValueClasses("c01-nonce", 24, nSeeded)}
 
 	// reference ciphertext of the longest plaintext and the one-time key, per (variant, class);
 	// the ciphertext of a shorter plaintext is its prefix (stream cipher), which the model
@@ -198,7 +202,7 @@ func run(c *vf.Ctx) {
 				for dm := 0; dm < nDst; dm++ {
 					// quick tier, long inputs: one allocating and one in-place dst mode (the two
 					// branches of the append logic); nil and exact-capacity repeat those branches
-					if n > 1024 && !c.Thorough && (dm == dstNil || dm == dstExact) {
+					if (n > 1024 && !c.Thorough || n > 2048) && (dm == dstNil || dm == dstExact) {
 						continue
 					}
 					det := func() map[string]any {
